@@ -213,6 +213,22 @@ def gen_query(rng, n, tier):
         c['units'] = [rng.choice([0, 1, 2, 3]) for _ in c['points']]
         c['dists'] = [rng.choice([0, 0.25, 0.5, 1, 1.5, 2, 3.75]) for _ in range(3)]
         c['probe'] = rng.random() < 0.3
+        if rng.random() < 0.3:
+            # a feature that goes twice from one cell to the diagonally opposite one, once on each side of their common corner (a hairpin road): the two crossings go
+            # through different intermediate cells; queries in both of them
+            m = c['margin']; ax = W + 2 * m * W; ay = H + 2 * m * H
+            cs = int(ax / c['res'][0]); ls = int(ay / c['res'][1])
+            if cs >= 2 and ls >= 2:
+                dX = ax / cs; dY = ay / ls
+                i = rng.randrange(1, cs); j = rng.randrange(1, ls)
+                Cx = -m * W + i * dX; Cy = -m * H + j * dY
+                hair = [[Cx - 0.2 * dX, Cy - 0.8 * dY], [Cx + 0.8 * dX, Cy + 0.2 * dY], [Cx + 0.5 * dX, Cy - 0.5 * dY], [Cx - 0.8 * dX, Cy - 0.2 * dY], [Cx + 0.2 * dX, Cy + 0.8 * dY]]
+                if all(0 <= px <= W and 0 <= py <= H for px, py in hair):
+                    if rng.random() < 0.5:                   # the mirror image (the second crossing below the corner, the way back above it)
+                        hair = [[Cx + (py - Cy) * dX / dY, Cy + (px - Cx) * dY / dX] for px, py in hair]
+                    c['tracks'].append(hair)
+                    c['points'] = c['points'] + [[Cx + 0.5 * dX, Cy - 0.5 * dY], [Cx - 0.5 * dX, Cy + 0.5 * dY]]
+                    c['units'] = c['units'] + [0, 1]
         out.append(c)
     return out
 
